@@ -69,10 +69,23 @@ def run(R, tier, rng):
         add(bm + "0", lambda: obs(mm()), nt, "matrix-encode")
         add(bm + "1 " + show(enc_rsel(slice(None, None, -1))), lambda: obs(mm()[::-1]), nt, "matrix-rows")
         add(bm + "4", lambda: [mm().sum(axis=-1).tolist(), None, None], nt, "matrix-rowsum")
+    # from_intervals: representation (boundaries, values) and decoded rows against Model/RLE2d.from_intervals and the indicator rows
+    for trial in range(600 if tier == "thorough" else 150):
+        n = rng.randint(1, 7); k = rng.randint(1, 4)
+        st = [rng.randint(0, n - 1) for _ in range(k)]; en = [rng.randint(s0 + 1, n) for s0 in st]
+        if trial % 5 == 0: st[0] = 0
+        if trial % 7 == 0: en[-1] = n
+        v = rng.choice([1, 1, 3, -2])
+        def iv():
+            x = RunLength2dArray.from_intervals(np.array(st), np.array(en), n, v) if v != 1 else RunLength2dArray.from_intervals(np.array(st), np.array(en), n)
+            return [x._indices.tolist(), x._values.tolist(), np.asarray(x.to_array()).astype(int).tolist()]
+        add("rl2_intervals %s %s %d %d" % (show(st), show(en), n, v), iv, k >= 2, "from-intervals")
     out = oracle([c[0] for c in cases])
     for (line, impl, nt, kind), o in zip(cases, out):
+        sp = None
         if o.startswith("ERR"): m = "oracle-error: " + o[:80]
         else:
             m = parse(o)
             if kind == "matrix-rowsum" and impl is not None and m is not None: m = [m[0], None, None]
-        R.record(line, impl, m, m, nt, kind)
+            if kind == "from-intervals" and m is not None: m, sp = m[0], [m[0][0], m[0][1], m[1]]
+        R.record(line, impl, m, m if sp is None else sp, nt, kind)
